@@ -357,7 +357,7 @@ theorem seg_setName (hn : (rd.h.mtype == cfg.mtSetName) = true) (nm : List Nat)
     exact ⟨_, this, by unfold lookupMod; rw [this]; rfl⟩
   obtain ⟨m0, hm0f, hlk⟩ := hrec
   rw [hlk] at q
-  have hs0 : Sim cfg ((Spec.afterBuf cfg a rd).upd rd.uid (fun m => { m with name := nm }))
+  have hs0 : SimM cfg ((Spec.afterBuf cfg a rd).upd rd.uid (fun m => { m with name := nm }))
       ((rdState cfg s rd).upd rd.uid (fun m => { m with name := nm })) :=
     sim_upd (rdState_sim inv.sim rd) rd.uid _ _ (fun _ => rfl) (fun _ => rfl) (fun _ => rfl)
       (fun am m _ _ h => ⟨h.connected, h.modId, h.unique, h.isLogger, h.isDaemon, rfl, h.pid, h.subs, h.noAll⟩)
@@ -393,7 +393,7 @@ theorem seg_ready (hn : (rd.h.mtype == cfg.mtSetName) = false) (hr : (rd.h.mtype
   have hseg := Spec.segment_ready cfg a rd evs am hget hal hb hc hd hs hn hr
   rw [bufs_eq inv.sim rd] at hseg
   generalize bufI32 (rdState cfg s rd).buf 0 = pid at q hseg
-  have hs0 : Sim cfg ((Spec.afterBuf cfg a rd).upd rd.uid (fun m => { m with pid := pid }))
+  have hs0 : SimM cfg ((Spec.afterBuf cfg a rd).upd rd.uid (fun m => { m with pid := pid }))
       ((rdState cfg s rd).upd rd.uid (fun m => { m with pid := pid })) :=
     sim_upd (rdState_sim inv.sim rd) rd.uid _ _ (fun _ => rfl) (fun _ => rfl) (fun _ => rfl)
       (fun am m _ _ h => ⟨h.connected, h.modId, h.unique, h.isLogger, h.isDaemon, h.name, rfl, h.subs, h.noAll⟩)
